@@ -254,7 +254,7 @@ func (b *PathBuilder) buildIndex(buf []rune) (int, error) {
 	for cursor := 0; cursor < len(buf); cursor++ {
 		switch buf[cursor] {
 		case ']':
-			index, err := strconv.ParseInt(string(buf[:cursor]), 10, 64)
+			index, err := strconv.ParseInt(string(buf[:cursor]), 10, strconv.IntSize)
 			if err != nil || index < 0 {
 				// an index counts from the start of the array: there is no element -1
 				return 0, errors.ErrInvalidPath("%q is unexpected index path", buf[:cursor])
